@@ -8,11 +8,14 @@ Tr(a, ins, outs) == [kind |-> "transfer", asset |-> a, amt |-> 0, ins |-> ins, o
 Sub(a, ins, outs) == [kind |-> "submit", asset |-> a, amt |-> 0, ins |-> ins, outs |-> outs, refs |-> {}, info |-> "-", bad |-> FALSE]
 \* a transfer whose outputs do not add up to its inputs (more: TI, less: TD): never valid
 BadTr(a, ins, outs) == [kind |-> "transfer", asset |-> a, amt |-> 0, ins |-> ins, outs |-> outs, refs |-> {}, info |-> "-", bad |-> TRUE]
+\* a withdrawal submission with a third output that is not a plain change output (WX: claim-typed, WY:
+\* custodian-slash-typed): never valid
+BadSub(a, ins, outs) == [kind |-> "submit", asset |-> a, amt |-> 0, ins |-> ins, outs |-> outs, refs |-> {}, info |-> "-", bad |-> TRUE]
 Clm(ins, outs, r) == [kind |-> "claim", asset |-> "XIN", amt |-> 0, ins |-> ins, outs |-> outs, refs |-> {r}, info |-> "-", bad |-> FALSE]
 
-TxU == {"D1", "D2", "D3", "D4", "D5", "D6", "T1", "T2", "T3", "TI", "TD", "W1", "X1", "K1", "K2"}
+TxU == {"D1", "D2", "D3", "D4", "D5", "D6", "T1", "T2", "T3", "TI", "TD", "W1", "WX", "WY", "X1", "K1", "K2"}
 \* processing order inside a batch (the harness grinds the real hashes into this order)
-OrdU == <<"D1", "D2", "D3", "D4", "D5", "D6", "T1", "T2", "T3", "TI", "TD", "W1", "X1", "K1", "K2">>
+OrdU == <<"D1", "D2", "D3", "D4", "D5", "D6", "T1", "T2", "T3", "TI", "TD", "W1", "WX", "WY", "X1", "K1", "K2">>
 TxDefU == [t \in TxU |->
    CASE t = "D1" -> Dep("BTC", 2000)
      [] t = "D2" -> Dep("BTC", 1000)
@@ -26,6 +29,8 @@ TxDefU == [t \in TxU |->
      [] t = "TI" -> BadTr("BTC", << <<"D3", 1>> >>, <<500>>)              \* creates 100 out of nothing
      [] t = "TD" -> BadTr("BTC", << <<"D3", 1>> >>, <<300>>)              \* destroys 100
      [] t = "W1" -> Sub("BTC", << <<"T1", 2>> >>, <<300, 200>>)          \* first output leaves the ledger
+     [] t = "WX" -> BadSub("BTC", << <<"T1", 2>> >>, <<300, 100, 100>>)
+     [] t = "WY" -> BadSub("BTC", << <<"T1", 2>> >>, <<300, 100, 100>>)
      [] t = "X1" -> Dep("XIN", 10)
      [] t = "K1" -> Clm(<< <<"X1", 1>> >>, <<1, 9>>, "W1")
      [] t = "K2" -> Clm(<< <<"K1", 2>> >>, <<1, 8>>, "W1")]               \* a second, different claim for the same submission
